@@ -1243,6 +1243,14 @@ def broadcast_to(a, shape):
         if k == "f":
             v = to_f(v)
         return STensor(shape, lambda *idx: v, k)
+    if isinstance(t, MaskedAxisTensor):
+        # a masked vector broadcast along new leading axes (the masked axis stays last)
+        if t.ndim == 1 and len(shape) == 2:
+            _require_same_dim(shape[1], t.count, "broadcast_to-masked")
+            return MaskedAxisTensor(
+                (shape[0], t.count), lambda i, k: t._elem(k), t.kind, 1, t.mask_fn, t.count, t.orig_n
+            )
+        raise OutOfReach("broadcast_to of masked tensor")
     src = t.rshape
     if len(src) > len(shape):
         raise ValueError("broadcast_to: input has more dimensions than target")
